@@ -120,6 +120,21 @@ def check_fault_selection(repo: Repo, run: Run, D, e, f) -> None:
            f"the selection {[sym.pretty(c)[:70] for c in conds]} does not pick {missed}: a fault served by such a record loses its pid "
            f"and protection (or takes them from a later record)", facts={"group": [n for _, n in group]}, line=e.func.lineno,
            witness=None if not missed else f"a MACH_vmfault window whose nested record is {missed[0]}")
+    # the nested decode hands ALL selected records to the record's decoder: "from the FIRST nested real-fault-address record"
+    # holds because that decoder reads the first record of what it is given
+    for en in D.entries():
+        if not en.key.startswith("RealFaultAddress"):
+            continue
+        dd = D.decode(en)
+        if dd.ret is None or dd.ret.op != "new":
+            continue
+        late = sorted({decoders.fmt_atoms({a})[0] for k_, v_ in dd.ret.a[1] if k_ != "ktraces"
+                       for a in decoders.classify(v_) if a[0].startswith("END") or a[0].startswith("EV")})
+        run.ob("R1", en.module.name, en.func_name, f"{en.key}: decoded from the first record it is given", not late,
+               "" if not late else
+               f"the decoder of {en.key} reads {late[:3]}: inside a fault window it is handed every nested real-fault-address record, "
+               f"so pid and protection then come from the last (or another) record instead of the first", line=en.func.lineno,
+               nontrivial=False, witness="a fault window with two nested real-fault-address records carrying different pids")
     run.ob("R1", M, e.func_name, "only real-fault-address records are selected", not extra,
            f"the selection also picks {extra}: pid and protection are then read from a record of another kind", nontrivial=False)
 
